@@ -21,6 +21,7 @@ KINDS = {  # name -> (reflexive, needKeyUpdate, hashMightPanic)   (ssa/abi/map.g
     "int": (1, 0, 0), "str": (1, 1, 0), "f64": (0, 1, 0), "any": (0, 1, 1), "arr": (1, 0, 0), "stc": (1, 1, 0), "big": (1, 0, 0)}
 KNOWN_CLEAR = "mapclear:memclr-noop-stale-buckets"
 KNOWN_NAN = "mapiter:nan-entry-of-retired-buckets-after-clear"
+KNOWN_BIG = "abitype:indirect-key-elem-slot-size"
 
 
 class Key:
@@ -619,6 +620,56 @@ def build_native(ctx):
     return native.make_native(ctx, RT_FILES, extra, {"main.go": open(os.path.join(H, "main.go.txt")).read()}, name="native-c06")
 
 
+def run_e2e(ctx, rng, defect_clear, nops):
+    """End-to-end route: llgo-compiled interpreters using real map syntax, judged against the specification.
+    Two batched programs per optimisation level: A = six key kinds without clear(); B = the same kinds with clear()
+    and, last, the kind whose key and elem are larger than 128 bytes (stored indirectly)."""
+    from vlib import e2e, c06_e2e
+    e2e.build_llgo(ctx)
+    kinds6 = ["int", "str", "f64", "any", "arr", "stc"]
+    stats = {"programs": 0, "trace_lines": 0, "violating_kinds": 0}
+    seen = set()
+    for (pname, kinds, with_clear) in (("A", kinds6, False), ("B", kinds6 + ["big"], True)):
+        src, meta = c06_e2e.gen_program(rng, kinds, nops, with_clear)
+        d = os.path.join(ctx.scratch, "e2e-" + pname)
+        e2e.write_module(d, {"main.go": src})
+        for opt in ("-O0", "-O2"):
+            exe = os.path.join(d, "prog" + opt)
+            p = e2e.llgo_build(ctx, d, exe, opt=opt)
+            if p.returncode != 0:
+                ctx.log("e2e program %s %s does not compile:\n%s" % (pname, opt, (p.stdout + p.stderr)[-1500:]))
+                ctx.report_broken("e2e C06 program %s %s: llgo build failed" % (pname, opt), (p.stdout + p.stderr)[-3000:])
+                continue
+            out, err, rc = e2e.run_prog(exe, timeout=120)
+            stats["programs"] += 1
+            lines = [l.split() for l in err.split("\n") if l.startswith("@ ")]
+            stats["trace_lines"] += len(lines)
+            for kind in kinds:
+                kl = [l[2:] for l in lines if len(l) > 2 and l[1] == kind]
+                bad = c06_e2e.judge_trace(kind, meta[kind], kl)
+                if not bad:
+                    continue
+                stats["violating_kinds"] += 1
+                msg, tag, cleared = bad[0]
+                if kind == "big":
+                    key = KNOWN_BIG
+                elif tag == "nan-stale":
+                    key = KNOWN_NAN
+                elif defect_clear and (cleared or (with_clear and "did not finish" in msg)):
+                    key = KNOWN_CLEAR
+                else:
+                    key = "c06:e2e:%s%s:%s:%s" % (pname, opt, kind, msg[:50])
+                if key in seen:
+                    continue
+                seen.add(key)
+                ctx.log("e2e %s %s kind %s: specification violated (%d findings), first: %s; exit code %s" % (pname, opt, kind, len(bad), msg, rc))
+                ctx.report(key, "llgo-compiled program violates the finite-map specification: " + msg,
+                           {"program": "vlib/c06_e2e.gen_program(seed-derived rng, %r, %d, %r)" % (kinds, nops, with_clear),
+                            "opt": opt, "kind": kind, "violations": [b[0] for b in bad[:8]], "exit": rc,
+                            "main.go": src if len(src) < 200000 else src[:200000]})
+    return stats
+
+
 def minimise(binary, hist, tag="general", limit=40):
     """shrink a spec-violating history: shortest prefix, then drop chunks of ops (delta debugging, bounded)"""
     def fails(h):
@@ -769,6 +820,10 @@ def run(ctx, args):
         ctx.broken.append("correspondence real map.go vs Lean HMap model (%d histories differ), e.g. %s op %d" % (len(mismatches), name, mm[0]))
         if not ctx.violations:
             ctx.report_broken("correspondence C06 real-vs-model", {"history": hist_json(h, mm[0]), "op": mm[0], "real": mm[1], "model": mm[2], "source": name})
+    e2e_stats = None
+    if not quick or os.environ.get("C06_E2E"):
+        e2e_stats = run_e2e(ctx, rng, defect_clear, 400 if quick else 1500)
+        ctx.log("e2e:", e2e_stats)
     for name, s in st.items():
         if s != "ok":
             ctx.log("theorem", name, s)
@@ -792,4 +847,5 @@ def run(ctx, args):
         "rule": "one evaluation = one map operation executed by the real code AND the model and compared; distinct = (kind, op, key token/slot)",
         "input_distribution": dist, "histories": len(hists), "spec_failures_on_real_code": spec_fail,
         "correspondence_mismatches": len(mismatches), "comparison_suspended_after_clear": suspended,
+        "e2e": e2e_stats if e2e_stats else "not run in this tier (thorough tier, or C06_E2E=1)",
         "model_coverage": cov})
